@@ -4,7 +4,7 @@
 
   The run-level theorems (`Props/C03.lean`, `C03Run.lean`, `C01Graph.lean`) speak of the suite the runner receives, with its
   list of injected fixture names and its hooks.  This file covers the step before: how that list is read off the suite
-  OBJECT — `Suite._load_injected_fixtures` through `get_object_attributes` (`dir()` + `getattr`), model `Model/Inject.lean` —
+  OBJECT — `Suite._load_injected_fixtures` through `get_object_attributes` (`dir()` + `getattr`), model `Model/SuiteObj.lean` —
   for EVERY object: the `lcc.inject_fixture()` marker may be written in the class body, in a base class, in a mixin shared by
   several suites, or assigned in `__init__`; it counts exactly when `getattr` on the instance finds it under a name `dir`
   lists, that does not start with `__` and is not a property.
@@ -17,7 +17,8 @@
        every test of the suite waits for that task (`C01Graph.test_waits_for_setup`, `C03.suite_teardown_after_setup_and_tests`);
     3. every variant of a parametrized test is a consumer of its own: its fixtures are the arguments of the shared callback
        that are not parameters of that variant.
-  The decision itself is pinned to the real code by the regenerated table `Generated/C03TablesCheck.lean` (253 class shapes).
+  The decision itself is pinned to the real code by the regenerated table `Generated/C03TablesCheck.lean` (253 class shapes);
+  the code modelled is the one repaired by fix D35 (1124d50): a fixture injected through several attributes is set on all of them.
 -/
 import LccModel.Lemmas.ExpandDeco
 import LccModel.Props.C01Expand
@@ -25,41 +26,72 @@ import LccModel.Props.C01Expand
 namespace LccModel.C03Decl
 open LccModel.Report (Path)
 open LccModel.Loader (PVal Params Seg Meta Disabled LoadErr orDefault)
-open LccModel.Inject LccModel.Expand LccModel.Run
+open LccModel.SuiteObj LccModel.Expand LccModel.Run
 
 /-! ### 1. Which attributes are injected fixtures -/
 
-/-- **Soundness**: every entry `fixture ↦ attribute` comes from an attribute that `dir` lists, that is visible (no `__`
-    prefix, no property) and behind which `getattr` finds a marker; the fixture is the marker's explicit name, or the
-    attribute name when there is none (or an empty one). -/
-theorem injected_entry_is_a_visible_marker (o : Obj) (f a : String) (h : (f, a) ∈ injectedOf o) :
+/-- **Soundness**: every attribute listed for a fixture is one that `dir` lists, that is visible (no `__` prefix, no
+    property) and behind which `getattr` finds a marker; the fixture is the marker's explicit name, or the attribute name when
+    there is none (or an empty one). -/
+theorem injected_entry_is_a_visible_marker (o : Obj) (f a : String) (as : List String) (h : (f, as) ∈ injectedOf o) (ha : a ∈ as) :
     a ∈ dirNames o ∧ visible o a = true ∧ ∃ n, lookup o a = some (.inject n) ∧ f = orDefault n a := by
   unfold injectedOf at h
-  rcases foldl_injectStep_mem _ [] h with h | ⟨n, hn, e⟩
-  · cases h
+  rcases foldl_injectStep_mem _ [] h ha with ⟨_, h', _⟩ | ⟨n, hn, e⟩
+  · cases h'
   · obtain ⟨h1, h2, h3⟩ := mem_attributes.mp hn
     exact ⟨h1, h2, n, h3, e⟩
 
 /-- **Completeness**: a marker that `getattr` finds under a visible name of `dir` — in WHATEVER layer it is stored: instance
-    dict, class body, base class, mixin — makes its fixture an injected fixture of the suite. -/
+    dict, class body, base class, mixin — makes its fixture an injected fixture of the suite, and THAT attribute is among the
+    ones that receive the value (since fix D35 also when another attribute injects the same fixture). -/
 theorem visible_marker_is_injected (o : Obj) (a : String) (n : Option String) (hd : a ∈ dirNames o) (hv : visible o a = true)
-    (hl : lookup o a = some (.inject n)) : orDefault n a ∈ injectedNames o := by
-  unfold injectedNames injectedOf
-  exact foldl_injectStep_key _ [] a n (mem_attributes.mpr ⟨hd, hv, hl⟩)
+    (hl : lookup o a = some (.inject n)) : ∃ as, (orDefault n a, as) ∈ injectedOf o ∧ a ∈ as := by
+  unfold injectedOf
+  exact foldl_injectStep_has _ [] a n (mem_attributes.mpr ⟨hd, hv, hl⟩)
 
 /-- a fixture is injected iff some visible attribute holds a marker for it -/
 theorem injected_iff (o : Obj) (f : String) :
     f ∈ injectedNames o ↔ ∃ a n, a ∈ dirNames o ∧ visible o a = true ∧ lookup o a = some (.inject n) ∧ f = orDefault n a := by
   constructor
   · intro h
-    obtain ⟨⟨f', a⟩, hm, e⟩ := List.mem_map.mp h
+    obtain ⟨⟨f', as⟩, hm, e⟩ := List.mem_map.mp h
     simp only at e; subst e
-    obtain ⟨h1, h2, n, h3, h4⟩ := injected_entry_is_a_visible_marker o f' a hm
+    -- an entry is never empty: it is created with one attribute and only grows; take any attribute of it
+    have hne : ∃ a, a ∈ as := by
+      unfold injectedOf at hm
+      suffices ∀ (l : List (String × AttrKind)) (acc : List (String × List String)), (∀ x ∈ acc, x.2 ≠ []) →
+          ∀ x ∈ l.foldl injectStep acc, x.2 ≠ [] by
+        have := this _ [] (by simp) _ hm
+        cases as with
+        | nil => exact absurd rfl this
+        | cons a _ => exact ⟨a, List.mem_cons_self ..⟩
+      intro l
+      induction l with
+      | nil => intro acc h x hx; exact h x hx
+      | cons b rest ih =>
+        intro acc h
+        apply ih
+        intro x hx
+        unfold injectStep at hx
+        split at hx
+        · unfold dictAdd at hx
+          split at hx
+          · obtain ⟨kv, hkv, e⟩ := List.mem_map.mp hx
+            split at e
+            · rw [← e]; simp
+            · rw [← e]; exact h kv hkv
+          · rcases List.mem_append.mp hx with hx | hx
+            · exact h x hx
+            · simp at hx; rw [hx]; simp
+        · exact h x hx
+    obtain ⟨a, ha⟩ := hne
+    obtain ⟨h1, h2, n, h3, h4⟩ := injected_entry_is_a_visible_marker o f' a as hm ha
     exact ⟨a, n, h1, h2, h3, h4⟩
   · rintro ⟨a, n, h1, h2, h3, e⟩
-    rw [e]; exact visible_marker_is_injected o a n h1 h2 h3
+    obtain ⟨as, hm, _⟩ := visible_marker_is_injected o a n h1 h2 h3
+    rw [e]; exact List.mem_map.mpr ⟨_, hm, rfl⟩
 
-/-- fixture names are the keys of a dict: each at most once (a second marker for the same fixture replaces the attribute) -/
+/-- fixture names are the keys of a dict: each at most once (a second marker for the same fixture extends the entry) -/
 theorem injected_names_nodup (o : Obj) : (injectedNames o).Nodup := by
   unfold injectedNames injectedOf
   exact foldl_injectStep_nodup _ [] List.nodup_nil
@@ -74,9 +106,9 @@ theorem injected_depends_only_on_dir_and_getattr (o o' : Obj) (hd : dirNames o =
 /-- what hides a marker: a name starting with `__` (dunder or not mangled), a property of the class, or another value that
     `getattr` finds first (instance attribute over class attribute, subclass over base class) -/
 theorem hidden_marker_is_not_injected (o : Obj) (a : String) (h : visible o a = false ∨ ∀ n, lookup o a ≠ some (.inject n)) :
-    ∀ f, (f, a) ∉ injectedOf o := by
-  intro f hm
-  obtain ⟨_, hv, n, hl, _⟩ := injected_entry_is_a_visible_marker o f a hm
+    ∀ f as, (f, as) ∈ injectedOf o → a ∉ as := by
+  intro f as hm ha
+  obtain ⟨_, hv, n, hl, _⟩ := injected_entry_is_a_visible_marker o f a as hm ha
   rcases h with h | h
   · rw [hv] at h; cases h
   · exact h n hl
@@ -161,22 +193,22 @@ theorem variants_use_the_same_fixture_names (d : TestDecl) (t₁ t₂ : Test) (h
 /-! ### Non-vacuity: the four places a marker can be written, and what hides it -/
 
 /-- `class S: conn = lcc.inject_fixture()` -/
-example : injectedOf { inst := [], mro := [[("conn", .inject none), ("t", .other)]] } = [("conn", "conn")] := by decide +kernel
+example : injectedOf { inst := [], mro := [[("conn", .inject none), ("t", .other)]] } = [("conn", ["conn"])] := by decide +kernel
 /-- `class B: conn = lcc.inject_fixture()` / `class S(B): …` — inherited -/
-example : injectedOf { inst := [], mro := [[("t", .other)], [("conn", .inject none)]] } = [("conn", "conn")] := by decide +kernel
+example : injectedOf { inst := [], mro := [[("t", .other)], [("conn", .inject none)]] } = [("conn", ["conn"])] := by decide +kernel
 /-- a mixin after the base class, explicit fixture name, private attribute -/
-example : injectedOf { inst := [], mro := [[("t", .other)], [], [("_db", .inject (some "database"))]] } = [("database", "_db")] := by decide +kernel
+example : injectedOf { inst := [], mro := [[("t", .other)], [], [("_db", .inject (some "database"))]] } = [("database", ["_db"])] := by decide +kernel
 /-- `def __init__(self): self.conn = lcc.inject_fixture()` -/
-example : injectedOf { inst := [("conn", .inject none)], mro := [[("__init__", .other), ("t", .other)]] } = [("conn", "conn")] := by decide +kernel
+example : injectedOf { inst := [("conn", .inject none)], mro := [[("__init__", .other), ("t", .other)]] } = [("conn", ["conn"])] := by decide +kernel
 /-- `__conn` inside `class S` is stored as `_S__conn`: visible; `__conn__` is not -/
-example : injectedOf { inst := [], mro := [[("_S__conn", .inject (some "fx")), ("__conn__", .inject none)]] } = [("fx", "_S__conn")] := by decide +kernel
+example : injectedOf { inst := [], mro := [[("_S__conn", .inject (some "fx")), ("__conn__", .inject none)]] } = [("fx", ["_S__conn"])] := by decide +kernel
 /-- shadowed: a plain instance attribute over the class-level marker; a plain subclass attribute over the base-class marker;
     a property of the subclass -/
 example : injectedOf { inst := [("conn", .other)], mro := [[("conn", .inject none)]] } = [] := by decide +kernel
 example : injectedOf { inst := [], mro := [[("conn", .other)], [("conn", .inject none)]] } = [] := by decide +kernel
 example : injectedOf { inst := [], mro := [[("conn", .property)], [("conn", .inject none)]] } = [] := by decide +kernel
-/-- two markers for one fixture: the later attribute in `dir()` order wins, the fixture is listed once -/
-example : injectedOf { inst := [], mro := [[("b_conn", .inject (some "fx"))], [("a_conn", .inject (some "fx"))]] } = [("fx", "b_conn")] := by decide +kernel
+/-- two markers for one fixture (fix D35): the fixture is listed once, BOTH attributes receive the value, `dir()` order -/
+example : injectedOf { inst := [], mro := [[("b_conn", .inject (some "fx"))], [("a_conn", .inject (some "fx"))]] } = [("fx", ["a_conn", "b_conn"])] := by decide +kernel
 /-- hooks are looked up the same way: inherited `setup_suite(self, fx)` -/
 example : hookParams { inst := [], mro := [[], [("setup_suite", .method ["fx"])]] } "setup_suite" = some ["fx"] := by decide +kernel
 
